@@ -191,3 +191,16 @@ Theorem C16_http_afterhook_outlives_stop_refuted :
     h_stop s = HTDone /\ h_missed s = false /\ h_hooks s = 1 /\ hobservable HHook s = true.
 Proof. exact http_afterhook_outlives_stop_refuted. Qed.
 Print Assumptions C16_http_afterhook_outlives_stop_refuted.
+
+(* ---- the metrics server (the first member of the tracker's stop group): in EVERY schedule of the goroutine NewServer
+   started and Stop - Stop racing with start-up included - the port is not bound once Stop has completed, nor afterwards *)
+Theorem C16_metrics_stop_closes :
+  forall before after, let s := mrun false (before ++ MStop :: after) in m_done s = true /\ m_bound s = false.
+Proof. exact metrics_stop_closes. Qed.
+Print Assumptions C16_metrics_stop_closes.
+
+(* a server that binds in NewServer and only registers the listener from its goroutine does not have the property *)
+Theorem C16_metrics_eager_bind_refuted :
+  exists sched, let s := mrun true sched in m_done s = true /\ m_bound s = true.
+Proof. exact metrics_eager_bind_refuted. Qed.
+Print Assumptions C16_metrics_eager_bind_refuted.
